@@ -59,6 +59,7 @@ def run_unit(root, module, prop, tier, seed, rebaseline=False):
         rec["unit"] = unit.name
         rec["describe"] = unit.describe
         rec["trusted"] = list(unit.trusted)
+        rec["clause_scope"] = list(getattr(unit, "clause_scope", []))
         text, meta = gen.generate(unit, root, rules)
     except (AnchorLost, gen.Unsupported) as e:
         rec["reason"] = f"anchor lost / unsupported construct: {e}"
@@ -157,6 +158,16 @@ def classify_unit(rec, r, meta, base, changed, text):
         for f in real:
             if not f["success"]:
                 failed.append({"function": f["function"], "where": f["function"], "kind": "unknown", "msg": "function not verified", "gen_line": None, "text": "", "verifier": r.get("stderr", "")[-3000:]})
+    scope = rec.get("clause_scope") or []
+    if scope:
+        inside = [x for x in failed if any(frag in (x.get("verifier", "") + x.get("text", "")) for frag in scope)]
+        if not inside:
+            rec["failed"] = failed
+            rec["status"] = "undecided"
+            rec["reason"] = ("the failed obligations are not this property's clauses (they are the shared context clauses, decided by the "
+                             "units of other properties): " + "; ".join(sorted({x["function"] + ": " + x["msg"] for x in failed}))[:400])
+            return
+        failed = inside
     rec["failed"] = failed
     if all(x["kind"] == "rlimit" for x in failed):
         rec["status"] = "undecided"
